@@ -133,6 +133,31 @@ class ModuleVal:
         return f"module:{self.name}"
 
 
+_LOCALS_CACHE: dict = {}
+
+
+def _local_names(fn) -> frozenset:
+    r = _LOCALS_CACHE.get(id(fn))
+    if r is None:
+        names = set()
+        for sub in ast.walk(fn):
+            if isinstance(sub, ast.Name) and isinstance(sub.ctx, ast.Store):
+                names.add(sub.id)
+            elif isinstance(sub, (ast.FunctionDef, ast.Lambda)) and sub is not fn:
+                pass
+        r = frozenset(names)
+        _LOCALS_CACHE[id(fn)] = r
+    return r
+
+
+EXT_KINDS = {
+    "akarray": {"awkward.Array", "awkward.highlevel.Array", "ak.Array"},
+    "akrecord": {"awkward.Record", "awkward.highlevel.Record", "ak.Record"},
+    "ndarray": {"numpy.ndarray"},
+    "npvoid": {"numpy.void"},
+}
+
+
 class _Return(Exception):
     def __init__(self, value):
         self.value = value
@@ -315,10 +340,11 @@ def builtin(name):
 class Interp:
     MAX_STEPS = 200000
 
-    def __init__(self, world: World):
+    def __init__(self, world: World, ext_models=None):
         self.w = world
         self.steps = 0
         self.trace: list = []  # notable events: stores to instance attributes, raises
+        self.ext_models = dict(ext_models or {})  # external dotted name -> callable(interp, args, kwargs)
 
     # -- entry points --------------------------------------------------------------------
     def eval_in_module(self, node, mname):
@@ -364,6 +390,7 @@ class Interp:
         if fv.owner is not None:
             env["__class__"] = fv.owner
             env["__self__"] = fv.bound
+        env["__locals__"] = _local_names(node)
         try:
             self.block(node.body, env, fv.module)
         except _Return as r:
@@ -674,6 +701,8 @@ class Interp:
     def ev_Name(self, n, env, mod):
         if n.id in env:
             return env[n.id]
+        if n.id in env.get("__locals__", ()):
+            raise PyRaise("UnboundLocalError", f"local variable '{n.id}' referenced before assignment", getattr(n, "lineno", None))
         try:
             return self.w.lookup_global(mod, n.id, self)
         except KeyError:
@@ -1060,6 +1089,9 @@ class Interp:
 
     def call_external(self, f, args, kwargs, node):
         nm = f.name
+        model = self.ext_models.get(nm)
+        if model is not None:
+            return model(self, args, kwargs)
         if nm in ("builtins.set", "builtins.list", "builtins.tuple", "builtins.dict"):
             ctor = {"builtins.set": set, "builtins.list": list, "builtins.tuple": tuple, "builtins.dict": dict}[nm]
             if not args:
@@ -1217,6 +1249,14 @@ def _len(I, args, kwargs, node):
 def _isinstance(I, args, kwargs, node):
     v, target = args
     cn = I.class_name_of(v)
+    if cn is None and isinstance(v, Opaque) and v.kind in EXT_KINDS:
+        def hit(t):
+            if isinstance(t, tuple):
+                return any(hit(x) for x in t)
+            if isinstance(t, External):
+                return t.name in EXT_KINDS[v.kind]
+            return False
+        return hit(target)
     if cn is None:
         if isinstance(v, Opaque) and v.kind == "array":
             # arrays are not instances of repo classes nor of numbers / str / bool
